@@ -442,9 +442,14 @@ Family const &container_family()
       cx.arg_mutated(m, "container");
       int const key = 1;
       cx.begin();
+      int const generated_before = cx.generated;
       tracked &res = fcppt::container::get_or_insert(m, key, create_fn{});
       cx.end();
       bool const present = n >= 2;
+      // "the function is only called if the key is not found": a value created for a present key has
+      // nowhere to go - it is constructed and thrown away (a lost element)
+      if (present && cx.generated != generated_before)
+        fail(cx.key("created-for-present-key"), cx.where() + "the creation function was called although the key is present; the created value is lost");
       std::vector<int> e = iota(n);
       if (!present) e.insert(e.begin() + (n == 0 ? 0 : 1), gen_base);
       cx.expect_state(m, e, "container");
@@ -459,9 +464,12 @@ Family const &container_family()
       cx.arg_mutated(m, "container");
       int const key = 3;
       cx.begin();
+      int const generated_before = cx.generated;
       auto const res = fcppt::container::get_or_insert_with_result(m, key, create_fn{});
       cx.end();
       bool const present = n >= 3;
+      if (present && cx.generated != generated_before)
+        fail(cx.key("created-for-present-key"), cx.where() + "the creation function was called although the key is present; the created value is lost");
       std::vector<int> e = iota(n);
       if (!present) e.insert(e.begin() + std::min(n, 2), gen_base);
       cx.expect_state(m, e, "container");
